@@ -306,11 +306,13 @@ func (c *client) reconnectDial() error {
 	}}, RequestTimeout(c.dialOptions.AuthTimeout))
 
 	if err != nil {
-		return errors.Wrap(err, "reconnect request")
-	}
+		// Do surfaces a non-zero status as *LBError: a session rejected as
+		// unauthenticated falls back to a full authentication
+		if lbe, ok := err.(*protocol.LBError); ok && lbe.Status == protocol.StatusUnauthenticated {
+			return c.auth()
+		}
 
-	if res.StatusCode() == protocol.StatusUnauthenticated {
-		return c.auth()
+		return errors.Wrap(err, "reconnect request")
 	}
 
 	var info control.AuthResponse
